@@ -47,7 +47,8 @@ def th(kind):
 
 
 ACCESS = {
-    "G": "pg{j}@@", "P": "p{j}", "L": "x{j}", "M": "x{j}", "K": "x{j}", "B": "(unbox b{j})", "C": "(c{j})",
+    "G": "pg{j}@@", "P": "p{j}", "L": "x{j}", "M": "x{j}", "K": "x{j}", "S": "s{j}", "B": "(unbox b{j})", "C": "(c{j})",
+    "EM": "(PMut@@-v e{j})", "PR": "(pp{j}@@)",
     "EL": "(list-ref e{j} 1)", "EP": "(car e{j})", "EV": "(vector-ref e{j} 0)", "EI": "(vector-ref e{j} 1)",
     "EH": "(hash-ref e{j} 'k)", "ES": "(PHold@@-v e{j})", "WL": "w{j}", "WM": "w{j}",
 }
@@ -56,8 +57,38 @@ BIND = {
     "C": "(let ([c{j} (let ([t {X}]) (lambda () t))])",
     "EL": "(let ([e{j} (list 0 {X})])", "EP": "(let ([e{j} (cons {X} 0)])", "EV": "(let ([e{j} (vector {X} 0)])",
     "EI": "(let ([e{j} (immutable-vector 0 {X})])", "EH": "(let ([e{j} (hash 'k {X})])",
-    "ES": "(let ([e{j} (PHold@@ {X})])", "WL": "(let ([w{j} {X}])", "WM": "(let ([w{j} {X}])",
+    "ES": "(let ([e{j} (PHold@@ {X})])", "EM": "(let ([e{j} (PMut@@ {X})])", "WL": "(let ([w{j} {X}])", "WM": "(let ([w{j} {X}])",
 }
+
+
+def sexp_split(t):
+    """Top-level elements of the parenthesised form t."""
+    assert t[0] == "(" and t[-1] == ")"
+    out, depth, cur, instr = [], 0, "", False
+    for ch in t[1:-1]:
+        if instr:
+            cur += ch
+            if ch == '"':
+                instr = False
+            continue
+        if ch == '"':
+            instr = True
+            cur += ch
+        elif ch == "(":
+            depth += 1
+            cur += ch
+        elif ch == ")":
+            depth -= 1
+            cur += ch
+        elif ch == " " and depth == 0:
+            if cur:
+                out.append(cur)
+            cur = ""
+        else:
+            cur += ch
+    if cur:
+        out.append(cur)
+    return out
 
 
 class Thread:
@@ -92,6 +123,8 @@ class AliasProgram:
             self.pre.append("(define (plt@@ a b) (< (car a) (car b)))")
         if "ES" in self.kinds:
             self.pre.append("(struct PHold@@ (v))")
+        if "EM" in self.kinds:
+            self.pre.append("(struct PMut@@ (v) #:mutable)")
         if any(th(k) for k in self.kinds):
             self.m.add("(let* ([cmw (channels/new)] [cwm (channels/new)] [txmw (channels-sender cmw)] "
                        "[rxmw (channels-receiver cmw)] [txwm (channels-sender cwm)] [rxwm (channels-receiver cwm)])", ")")
@@ -142,6 +175,12 @@ class AliasProgram:
         if kind == "G":
             self.pre.append(f"(define pg{j}@@ #f)")
             T.add(f"(set! pg{j}@@ {X})")
+        elif kind == "S":
+            T.add(f"(let ([s{j} #f])", ")")
+            T.add(f"(set! s{j} {X})")
+        elif kind == "PR":
+            self.pre.append(f"(define pp{j}@@ (make-parameter #f))")
+            T.add(f"(parameterize ([pp{j}@@ {X}])", ")")
         elif kind == "K":
             self.pre.append(f"(define pk{j}@@ #f)")
             T.add(f"(let ([x{j} {X}])", ")")
@@ -201,6 +240,16 @@ class AliasProgram:
                     self.pre.append(f"(define (ph{n}@@ p) (let ([r {a['tpl'].replace('$v', 'p').replace('$a', a['arg'])}]) "
                                     f"(emit {q}) r))")
                     X = f"(ph{n}@@ {src})"
+                elif via == "a":   # (apply prim args): the argument list is observed afterwards
+                    parts = sexp_split(a["tpl"])
+                    pos = parts[1:].index("$v")
+                    args = " ".join(x.replace("$v", src).replace("$a", a["arg"]) for x in parts[1:])
+                    q = a["pre"][0]["q"].replace("$v", f"(list-ref pl{n} {pos})")
+                    X = f"(let ([pl{n} (list {args})]) (let ([r (apply {parts[0]} pl{n})]) (emit {q}) r))"
+                elif via == "m":   # (map (lambda (p) (prim p ...)) lst): the list is observed afterwards
+                    q = a["pre"][0]["q"].replace("$v", f"(car pl{n})")
+                    body = a["tpl"].replace("$v", "p").replace("$a", a["arg"])
+                    X = f"(let ([pl{n} (list {src})]) (let ([r (car (map (lambda (p) {body}) pl{n}))]) (emit {q}) r))"
                 else:   # "k": a continuation is captured while the operand is an evaluated temporary
                     self.pre.append(f"(define pk{n}x@@ #f)")
                     self.m.add(f"(let ([pc{n} (box 0)])", ")")
@@ -209,8 +258,8 @@ class AliasProgram:
         dt = th(a["kind"])
         if st == 1:
             self.m2w()
-        if a["a"] == "upd" and a["via"] == "g":
-            self.expect(a["pre"][0]["exp"], f"s{n}:via-g:param-after-update:a{a['i']}")
+        if a["a"] == "upd" and a["via"] in ("g", "a", "m"):
+            self.expect(a["pre"][0]["exp"], f"s{n}:via-{a['via']}:operand-after-update:a{a['i']}")
         if (st, dt) == (0, 0):
             self.bind(0, j, X)
         elif (st, dt) == (0, 1):
@@ -313,7 +362,7 @@ def alias_case(c):
     h = hashlib.sha1(json.dumps([s["src"] for s in steps]).encode()).hexdigest()[:12]
     return {"id": f"A-{h}", "fresh": False, "tag": f"alias|ty={c['ty']}|hist={hist_tag(c)}", "steps": steps,
             "meta": {"labs": p.lab, "fam": "alias", "nacts": len(c["acts"]),
-                     "shared": any(a["a"] in ("share", "upd2") or a["via"] in ("g", "k") for a in c["acts"])}}
+                     "shared": any(a["a"] in ("share", "upd2") or a["via"] in ("g", "a", "m", "k") for a in c["acts"])}}
 
 
 # ----------------------------------------------------------------------------- loop programs
@@ -363,19 +412,37 @@ def loop_case(c):
                 f"(list (car r) (cdr (cadr r)) b0)))")
     else:
         raise vlib.ToolError(f"unknown loop style {st}")
+    def ref(x):
+        return f"(hash-ref (cadr r) {c['saved'][x]['i']})" if st == "hashv" else f"(list-ref (cadr r) {x})"
     obs, exp, lab = [], [], []
-    for x, s in enumerate(c["saved"]):
-        ref = f"(hash-ref (cadr r) {s['i']})" if st == "hashv" else f"(list-ref (cadr r) {x})"
-        obs.append(f"(emit {s['q'].replace('$v', ref)})")
-        exp.append(s["exp"])
-        lab.append(f"loop:saved-version:{s['i']}")
-    obs.append(f"(emit {c['final']['q'].replace('$v', '(car r)')})")
-    exp.append(c["final"]["exp"])
-    lab.append("loop:final")
-    if st == "thread":            # the sender's original after the other thread's updates
-        obs.append(f"(emit {c['saved'][0]['q'].replace('$v', '(caddr r)')})")
-        exp.append(c["saved"][0]["exp"])
-        lab.append("loop:sender-original")
+
+    def observe_versions(phase):
+        for x, s in enumerate(c["saved"]):
+            obs.append(f"(emit {s['q'].replace('$v', ref(x))})")
+            exp.append(s["exp"])
+            lab.append(f"loop:{phase}:saved-version:{s['i']}")
+        obs.append(f"(emit {c['final']['q'].replace('$v', '(car r)')})")
+        exp.append(c["final"]["exp"])
+        lab.append(f"loop:{phase}:final")
+        if st == "thread":            # the sender's original after the other thread's updates
+            obs.append(f"(emit {c['saved'][0]['q'].replace('$v', '(caddr r)')})")
+            exp.append(c["saved"][0]["exp"])
+            lab.append(f"loop:{phase}:sender-original")
+    observe_versions("after-loop")
+    # every version is updated once more (not at its last use: the saved list still holds it)
+    forks = "'()"
+    for x in reversed(range(len(c["forks"]))):
+        forks = f"(cons {op(ref(x), str(c['forks'][x]['i']))} {forks})"
+    obs.append(f"(set! pforks@@ (pfork@@ r))")
+    observe_versions("after-forks")
+    for x, f in enumerate(c["forks"]):
+        obs.append(f"(emit {f['q'].replace('$v', f'(list-ref (cdr pforks@@) {x})')})")
+        exp.append(f["exp"])
+        lab.append(f"loop:fork-of-version:{c['saved'][x]['i']}")
+    obs.append(f"(emit {c['forkfinal']['q'].replace('$v', '(car pforks@@)')})")
+    exp.append(c["forkfinal"]["exp"])
+    lab.append("loop:fork-of-final")
+    pre += ["(define pforks@@ #f)", f"(define (pfork@@ r) (cons {op('(car r)', '2000')} {forks}))"]
     define = " ".join(pre + [f"(define (ploop@@) {body})"])
     call = f"(let ([r (ploop@@)]) {' '.join(obs)})"
     steps = [{"src": define, "class": "ok", "emit": []}, {"src": call, "class": "ok", "emit": exp},
@@ -503,8 +570,109 @@ def selftest(r, cases, work):
     raise vlib.ToolError("self-test: no passing case with a shared object to mutate")
 
 
+PLAN = {
+    # (cfg, constant overrides); KEEP* are per-mille of the choices kept by the seeded thinning
+    "quick": [
+        ("loop", {}),
+        ("kinds", {"KEEP1": 200}),
+        ("pairs", {"KEEP2": 70}),
+        ("threads", {"KEEP1": 200, "KEEP2": 100, "KEEPR": 30}),
+        ("deep", {"KEEP1": 60, "KEEP2": 28, "KEEPR": 12}),
+    ],
+    "thorough": [
+        ("loop", {"LOOPN": "{5, 40, 70}"}),
+        ("kinds", {"KEEP1": 1000}),                      # exhaustive
+        ("pairs", {"KEEP2": 300}),
+        ("threads", {"KEEP1": 300, "KEEP2": 150, "KEEPR": 60}),
+        ("deep", {"KEEP1": 80, "KEEP2": 35, "KEEPR": 15}),
+    ],
+}
+MAIN_ENVS = ["jit", "nojit"]
+SAMPLE_ENVS = ["inline", "nolift", "inline-nojit"]
+SAMPLE_SIZE = {"quick": 900, "thorough": 5000}
+
+
+def tlc_producer(tier, seed, work, q):
+    """Runs the TLC configurations one after the other (while the main thread replays the previous one)."""
+    try:
+        for name, sub in PLAN[tier]:
+            if os.environ.get("C03_ONLY") and name not in os.environ["C03_ONLY"].split(","):
+                continue
+            cfg = cfg_variant(f"MC_Persist_{name}.cfg", work, dict(sub, SEED=seed), f"{tier}_s{seed}")
+            res = vlib.run_tlc("Persist", cfg, os.path.join(work, "tlc_" + name), workers=WORKERS, timeout=900)
+            q.put((name, res))
+        q.put((None, None))
+    except BaseException as e:  # noqa
+        q.put((None, e))
+
+
 def run(tier, seed):
-    raise NotImplementedError
+    import queue
+    import threading
+    work = os.path.join(vlib.WORK, PROP)
+    r = vlib.Result(PROP, tier, seed)
+    stats = {"evaluations": {}, "failing": 0, "by_finding": {}, "unreported_violations": 0, "groups": {},
+             "cases": {}, "observations": 0}
+    q = queue.Queue()
+    threading.Thread(target=tlc_producer, args=(tier, seed, work, q), daemon=True).start()
+    rnd = random.Random(seed)
+    seen = set()
+    pool = []          # (case) candidates for the switch sample and the self-test
+    samples = []
+    while True:
+        name, res = q.get()
+        if name is None:
+            if res is not None:
+                raise res
+            break
+        r.add_tlc(res)
+        cases = []
+        for c in res["cases"]:
+            k = to_case(c)
+            if k["id"] not in seen:
+                seen.add(k["id"])
+                cases.append(k)
+        res["cases"] = None
+        stats["cases"][name] = len(cases)
+        stats["observations"] += sum(2 * len(c["steps"][1]["emit"]) for c in cases)
+        for env in MAIN_ENVS:
+            verdicts = vlib.replay([strip(c) for c in cases], work, env_extra=ENVS[env], jobs=12, timeout_ms=10000,
+                                   name=f"{name}_{env}")
+            judge(r, cases, verdicts, env, stats)
+        keep = rnd.sample(cases, min(len(cases), SAMPLE_SIZE[tier] // 2 + 50))
+        pool += keep
+        for c in keep[:2]:
+            if c.get("_passed"):
+                samples.append({"id": c["id"], "tag": c["tag"], "define": c["steps"][0]["src"][:1500],
+                                "call": c["steps"][1]["src"][:300], "emit": c["steps"][1]["emit"][:8]})
+    if not pool:
+        raise vlib.ToolError("no case was generated")
+    sample = rnd.sample(pool, min(len(pool), SAMPLE_SIZE[tier]))
+    for env in SAMPLE_ENVS:
+        verdicts = vlib.replay([strip(c) for c in sample], work, env_extra=ENVS[env], jobs=12, timeout_ms=10000,
+                               name=f"sample_{env}")
+        judge(r, sample, verdicts, env, stats)
+    selftest(r, pool, work)
+    r.cov["samples"] = samples[:8]
+    r.cov["rule"] = ("Persist.tla: histories of base / share / upd / upd2 / reobs actions over aliases with a holder kind each "
+                     "(kinds: depth 1, every kind x every kind x every operation x every via; pairs: any holder + a moved second "
+                     "reference that is updated; threads: both directions through channels / thread closures; deep: <= 5 actions "
+                     "over two bases, seeded sparse sub-tree) and accumulator loops that keep versions; every alias is observed "
+                     "after every step, the function under test is activated twice; every case is replayed with the JIT on and "
+                     "off, a sample under the inlining / closure-lifting switches.  distinct_nontrivial = distinct programs whose "
+                     "history keeps a second reference to an object alive across an update of it (share, binary update of two "
+                     "aliases, helper that observes its parameter after the update, continuation re-entry) or that are loops "
+                     "keeping old versions.")
+    r.cov["exhaustive"] = tier == "thorough"
+    r.assumptions.append("the in-place decision itself is not observed (it is unobservable by the property's own statement); "
+                         "hash maps / sets are observed through sorted entries, lookups, sizes and equal? against a fresh copy")
+    summary = {k: v for k, v in stats.items() if k != "groups"}
+    r.notes.append(summary)
+    vlib.log(json.dumps(summary))
+    if os.environ.get("C03_DEBUG"):
+        with open(os.path.join(work, "groups.json"), "w") as f:
+            json.dump(stats["groups"], f, indent=1)
+    return r.finish()
 
 
 def replay_file(path):
